@@ -8,6 +8,8 @@ use std::path::Path;
 pub mod c02;
 pub mod c07;
 pub mod c08;
+pub mod c09;
+pub mod c10;
 pub mod c11;
 pub mod c14;
 pub mod c15;
@@ -39,6 +41,8 @@ pub fn registry() -> Vec<PropDef> {
         PropDef { id: "C02", level: "exploration", run: c02::run, replay: c02::replay, replay_isolated: None },
         PropDef { id: "C07", level: "exploration", run: c07::run, replay: c07::replay, replay_isolated: None },
         PropDef { id: "C08", level: "exploration", run: c08::run, replay: c08::replay, replay_isolated: None },
+        PropDef { id: "C09", level: "exploration", run: c09::run, replay: c09::replay, replay_isolated: None },
+        PropDef { id: "C10", level: "exploration", run: c10::run, replay: c10::replay, replay_isolated: None },
         PropDef { id: "C11", level: "fault_enumeration", run: c11::run, replay: c11::replay, replay_isolated: None },
         PropDef { id: "C14", level: "exploration", run: c14::run, replay: c14::replay, replay_isolated: None },
         PropDef { id: "C15", level: "exploration", run: c15::run, replay: c15::replay, replay_isolated: Some(c15::replay_isolated) },
